@@ -70,8 +70,8 @@ def _inst(k):
 
 def _inv1(st: St, k):
     e = st.env
-    atoms, mp = e.get("atoms"), e.get("atoms_number")
-    if not isinstance(atoms, seq.SymList) or not isinstance(mp, seq.SymDict) or e.get("index", pyvc.UNBOUND) is pyvc.UNBOUND:
+    atoms, mp = pyvc.local(st, "atoms", seq.SymList), pyvc.local(st, "atoms_number", seq.SymDict)
+    if atoms is pyvc.UNBOUND or mp is pyvc.UNBOUND or pyvc.local(st, "index") is pyvc.UNBOUND:
         return z3.BoolVal(False)
     i = z3.Int("i!a")
     idx = seq.SymDict._key(e["index"]) if not isinstance(e["index"], int) else z3.IntVal(e["index"])
@@ -83,8 +83,8 @@ def _inv1(st: St, k):
 
 
 def _inv2(st: St, t):
-    bonds = st.env.get("bonds")
-    if not isinstance(bonds, seq.SymList):
+    bonds = pyvc.local(st, "bonds", seq.SymList)
+    if bonds is pyvc.UNBOUND:
         return z3.BoolVal(False)
     u = z3.Int("u!b")
     return z3.And(_inv1(st, NL), t >= 0, t <= NB, bonds.length == t,
